@@ -66,7 +66,7 @@ PARAMS: list[dict[str, Any]] = [
 def shards(tier: str, seed: int) -> list[dict[str, Any]]:
     if tier == "quick":
         return [{"kind": "services", "n": 150, "part": i} for i in range(8)] + [{"kind": "identifiers", "n": 100, "part": i} for i in range(8)]
-    return [{"kind": "services", "n": 400, "part": i} for i in range(16)] + [{"kind": "identifiers", "n": 400, "part": i} for i in range(16)]
+    return [{"kind": "services", "n": 2500, "part": i} for i in range(16)] + [{"kind": "identifiers", "n": 1500, "part": i} for i in range(16)]
 
 
 def required_reach(tier: str) -> dict[str, int]:
@@ -389,6 +389,8 @@ def check_services(ctx: Any, case: dict[str, Any]) -> None:
                 dirty = was_dirty = True
                 continue
             if q == b"\x22\xf1\x86":
+                if r is not None and r[0] == 0x62:
+                    dirty = False  # never a probe here: the scanner has been told the session, it must re-enter S or give up
                 continue
             if len(q) == 2 and q[0] == 0x10 and q[1] == S:
                 if r is not None and r[0] == 0x50:
@@ -401,7 +403,13 @@ def check_services(ctx: Any, case: dict[str, Any]) -> None:
                 if before != real_S:
                     if sid == 0x3E and (case["full"] or case["reset"] is not None):
                         continue  # cyclic tester present / wait_for_ecu ping, not a probe
-                    if dirty:
+                    check_due = given and case["check_session"] and sid not in probes and 0x22 in model.get(before, set())
+                    if check_due:
+                        # the scanner reads the session before the first probe of every service id; the ECU can answer that read here
+                        ctx.violation("services/probe-in-wrong-session/session-check-due", "with check-session on, the first probe of a service id was sent while the ECU was in "
+                                      "another session (the session read is answerable there)", {**ww, "sid": sid, "ecu_session": before, "log": em.hexlog(log[max(0, i - 6) : i + 1])})
+                        tainted.add(sid)
+                    elif dirty:
                         tainted.add(sid)
                     else:
                         ctx.violation("services/probe-in-wrong-session", "a service id was probed while the ECU was in another session than the one the scanner claims",
@@ -675,12 +683,15 @@ def check_identifiers(ctx: Any, case: dict[str, Any]) -> None:
         was_dirty = False
         f186_replies: list[bytes | None] = []
         bad_layout = 0
+        wrong_reported = False
         for i, before, q, r, delivered in wd.entries:
             if q == b"":
                 dirty = was_dirty = True
                 continue
             if q == b"\x22\xf1\x86" and (ambiguous or service != 0x22 or payload):
                 f186_replies.append(r if delivered else None)
+                if not ambiguous and r is not None and r[0] == 0x62:
+                    dirty = False  # a session check (not a probe): the scanner has been told the session
                 continue
             if len(q) == 2 and q[0] == 0x10:
                 if r is not None and r[0] == 0x50:
@@ -699,7 +710,12 @@ def check_identifiers(ctx: Any, case: dict[str, Any]) -> None:
             if d not in tx:
                 order.append(d)
             tx.setdefault(d, []).append((i, before, r, delivered))
-            if before != real_S and not dirty:
+            if before != real_S and given and n is not None and d[0] % n == 0 and len(tx[d]) == 1 and 0x22 in out["model"].get(before, set()):
+                if not wrong_reported:
+                    ctx.violation("identifiers/probe-in-wrong-session/session-check-due", "a session check was due before this identifier (check-session interval) and the ECU can answer it, "
+                                  "yet the probe was sent while the ECU was in another session", {**ww, "identifier": d[0], "ecu_session": before, "log": em.hexlog(log[max(0, i - 6) : i + 1])})
+                wrong_reported = True
+            elif before != real_S and not dirty:
                 ctx.violation("identifiers/probe-in-wrong-session", "an identifier was probed while the ECU was in another session than the one the scanner claims",
                               {**ww, "identifier": d[0], "ecu_session": before, "log": em.hexlog(log[max(0, i - 6) : i + 1])})
         if was_dirty and not dirty and wd.recovered:
@@ -710,6 +726,11 @@ def check_identifiers(ctx: Any, case: dict[str, Any]) -> None:
         if case["skip_not_supported"]:
             for k, d in enumerate(E):
                 if ambiguous and d[0] == 0xF186:
+                    # probe and session check are byte-identical; in one session they are answered alike
+                    if any(nrc_of(b"\x22", r) in NOT_SUPPORTED for r in f186_replies):
+                        E_eff = E[: k + 1]
+                        ctx.reach("identifiers.skip-not-supported-stop")
+                        break
                     continue
                 t = tx.get(d)
                 if t and t[-1][3] and nrc_of(bytes([service]), t[-1][2]) in NOT_SUPPORTED:
